@@ -43,7 +43,7 @@ CANCEL_CMD = {"slurm": "scancel", "sge": "qdel", "lsf": "bkill"}
 
 @st.composite
 def _case(draw, tier):
-    desc = draw(gen.wellformed(max_targets=7, max_files=10, ticks=3, min_targets=2, shapes=(0, 2, 4), spellings=(0, 1)))
+    desc = draw(gen.wellformed(max_targets=7, max_files=10, ticks=3, min_targets=2, shapes=(0, 2, 4), spellings=(0, 1, 4, 5, 7)))
     names = [t["name"] for t in desc["targets"]]
     state = {n: draw(st.sampled_from(["never", "pending", "pending", "running", "running", "completed", "failed"]))
              for n in names}
@@ -53,7 +53,7 @@ def _case(draw, tier):
             "older": older, "patterns": pats, "force": draw(st.booleans()),
             "answer": draw(st.sampled_from(["y\n", "y\n", "n\n", "\n"])),
             "outputs_exist": draw(st.booleans()),
-            "fault_pos": draw(st.integers(0, 7)), "fault_kind": draw(st.sampled_from(["exit1", "stderr-error"]))}
+            "fault_pos": draw(st.integers(0, 7)), "fault_kind": draw(st.sampled_from(["exit1", "stderr-error", "exit1-plain", "killed"]))}
 
 
 def strategy(tier):
